@@ -35,6 +35,9 @@ func runC13(p *Prog, r *Report) {
 	c13FnVocabulary(p, r)
 	c13UseNumber(p, r)
 	exactNumberSites(p, r, "R13.3-untyped-decode-sites")
+	c13RebuildKeepsAll(p, r, "R13.5-rebuild-keeps-all-members")
+	prefixBitsVsConstant(p, r, "R13.6-family-dependent-host-test")
+	c13DecodedArgument(p, r, "R13.7-decoded-argument")
 	c13ImplicitEntity(p, r)
 }
 
@@ -412,4 +415,194 @@ func exactNumberSites(p *Prog, r *Report, rule string) {
 		}
 	}
 	r.Floor(rule, 2)
+}
+
+// R13.5: a collection rebuilt member by member keeps every member. Wherever a loop collects converted members into a
+// slice that the enclosing function turns into a Set (types.NewSet), the append must be on every path that goes on to the
+// next member: a `continue` that skips it drops a member (found by a seeded change in schema-guided coercion, where
+// members whose coercion is a no-op were skipped).
+func c13RebuildKeepsAll(p *Prog, r *Report, rule string) {
+	n := 0
+	for _, fn := range p.Funcs {
+		pp := fnPkgPath(fn)
+		if pp != pXTypes && pp != pTypes && pp != pBatch {
+			continue
+		}
+		// the function (or its parent, for a range-over-func body) builds a Set
+		top := fn
+		for top.Parent() != nil {
+			top = top.Parent()
+		}
+		builds := false
+		for _, g := range withAnon(top) {
+			for _, cl := range callsIn(g) {
+				if isCallTo(cl, pTypes, "NewSet") {
+					builds = true
+				}
+			}
+		}
+		if !builds {
+			continue
+		}
+		loops := loopsOf(fn)
+		for _, b := range fn.Blocks {
+			for _, in := range b.Instrs {
+				call, ok := in.(*ssa.Call)
+				if !ok || !isBuiltin(call.Common(), "append") {
+					continue
+				}
+				if sl, ok := call.Type().Underlying().(*types.Slice); !ok || !isValueIface(p, sl.Elem()) {
+					continue
+				}
+				// continuation points of the iteration this append belongs to
+				var conts []*ssa.BasicBlock
+				if isRangeFuncYield(fn) {
+					for _, rb := range fn.Blocks {
+						if ret, ok := lastInstr(rb).(*ssa.Return); ok && len(ret.Results) == 1 {
+							if v, isC := constBool(ret.Results[0]); isC && v {
+								conts = append(conts, rb)
+							}
+						}
+					}
+				} else if l := innermostLoop(loops, b); l != nil {
+					for _, pred := range l.Header.Preds {
+						if l.Body[pred] {
+							conts = append(conts, pred)
+						}
+					}
+				} else {
+					continue
+				}
+				n++
+				skipped := false
+				for _, cb := range conts {
+					if !b.Dominates(cb) {
+						skipped = true
+					}
+				}
+				r.Check(!skipped, rule, fnQual(fn)+":append-member", p.pos(call.Pos()), "every member visited is appended to the rebuilt collection",
+					"in "+fnShort(fn)+" the loop that rebuilds a set can move on to the next member without appending the current one: that member is missing from the rebuilt set")
+			}
+		}
+	}
+	if n == 0 {
+		r.Undec(rule, "rebuild-loops", "-", "no member-wise set rebuild was recognised (anchors vanished)")
+	}
+}
+
+func isValueIface(p *Prog, t types.Type) bool {
+	v := p.namedType(pTypes, "Value")
+	return v != nil && types.Identical(t, v)
+}
+
+// R13.7: the string handed to an extension value's parser is a *decoded* JSON string. Taking the raw bytes between the
+// quotes of the input skips JSON unescaping ("10.0.0.0\/8", "1.0"), so a legal spelling of the same datum is
+// rejected or read differently from the other spellings.
+func c13DecodedArgument(p *Prog, r *Report, rule string) {
+	n := 0
+	for _, fn := range p.Funcs {
+		if fnPkgPath(fn) != pTypes || fn.Parent() != nil {
+			continue
+		}
+		// role: takes the input bytes and a parse function
+		var bytesParam, parseParam *ssa.Parameter
+		for _, pr := range fn.Params {
+			if sl, ok := pr.Type().Underlying().(*types.Slice); ok {
+				if b, ok := sl.Elem().Underlying().(*types.Basic); ok && b.Kind() == types.Uint8 {
+					bytesParam = pr
+				}
+			}
+			if sig, ok := pr.Type().Underlying().(*types.Signature); ok && sig.Params().Len() == 1 && basicKind(sig.Params().At(0).Type()) == types.String {
+				parseParam = pr
+			}
+		}
+		if bytesParam == nil || parseParam == nil {
+			continue
+		}
+		// allocations handed to encoding/json as decode targets
+		decoded := map[ssa.Value]bool{}
+		for _, cl := range callsIn(fn) {
+			f := cl.Common().StaticCallee()
+			if f == nil || fnPkgPath(f) != "encoding/json" || (f.Name() != "Unmarshal" && f.Name() != "Decode") {
+				continue
+			}
+			for _, a := range cl.Common().Args {
+				if mi, ok := a.(*ssa.MakeInterface); ok {
+					a = mi.X
+				}
+				if _, ok := a.(*ssa.Alloc); ok {
+					decoded[a] = true
+				}
+			}
+		}
+		for _, cl := range callsIn(fn) {
+			if cl.Common().Value != ssa.Value(parseParam) || len(cl.Common().Args) != 1 {
+				continue
+			}
+			n++
+			raw, okOrigin := false, true
+			seen := map[ssa.Value]bool{}
+			var rec func(v ssa.Value)
+			rec = func(v ssa.Value) {
+				if v == nil || seen[v] {
+					return
+				}
+				seen[v] = true
+				switch x := v.(type) {
+				case *ssa.Phi:
+					for _, e := range x.Edges {
+						rec(e)
+					}
+				case *ssa.UnOp:
+					switch a := x.X.(type) {
+					case *ssa.Alloc:
+						if decoded[a] {
+							return
+						}
+						// a local assigned on several paths
+						for _, rf := range *a.Referrers() {
+							if st, ok := rf.(*ssa.Store); ok && st.Addr == a {
+								rec(st.Val)
+							}
+						}
+					case *ssa.FieldAddr:
+						base := a.X
+						for {
+							if fa, ok := base.(*ssa.FieldAddr); ok {
+								base = fa.X
+								continue
+							}
+							if ld, ok := base.(*ssa.UnOp); ok {
+								if fa, ok := ld.X.(*ssa.FieldAddr); ok {
+									base = fa.X
+									continue
+								}
+							}
+							break
+						}
+						if !decoded[base] {
+							okOrigin = false
+						}
+					default:
+						okOrigin = false
+					}
+				case *ssa.Convert:
+					if _, isSlice := x.X.(*ssa.Slice); isSlice || x.X == ssa.Value(bytesParam) {
+						raw = true
+					} else {
+						rec(x.X)
+					}
+				case *ssa.Const:
+				default:
+					okOrigin = false
+				}
+			}
+			rec(cl.Common().Args[0])
+			r.Check(!raw && okOrigin, rule, fnQual(fn)+":parse-argument", p.pos(cl.Pos()), "the parser receives a string decoded by encoding/json",
+				"in "+fnShort(fn)+" the text handed to the value parser is cut out of the raw input bytes (or of unknown origin) instead of being decoded by encoding/json: JSON escapes inside the string are not undone, so one spelling of a datum is rejected or differs from the others")
+		}
+	}
+	if n == 0 {
+		r.Undec(rule, "types:extension-decoder", "-", "no function taking the input bytes and a parse function was recognised (anchor vanished)")
+	}
 }
